@@ -24,7 +24,7 @@ pub fn def() -> CheckDef {
         run,
         rule: "a drawn prefix history (<= 15 ops, biased to fill the mini stream / MiniFAT to whole-sector multiples: 8k mini sectors in V3, 64k in V4) followed by a drawn cycle body that returns the model to the same state - create/write/remove one or several streams below and above 4096 bytes, grow/shrink back, overwrite with equal size, build and remove_storage_all a subtree - repeated 5 times, optionally with a reopen between repetitions. Conservation oracle: the image length after repetitions 2, 3, 4 and 5 is one number (repetition 1 may grow). The model state hash after every repetition must be the same (net-zero premise; otherwise harness error). Non-trivial: the body contains >= 1 successful mutation; distinct = distinct (seam log, final image) hash.",
         assumptions: &["the check does not demand that the file shrinks, only that it stops growing from the second repetition on"],
-        cpu_limit_s: 30,
+        cpu_limit_s: 300,
         fault_kinds: "none (conservation invariant over the recorded history)",
         count_subruns: false,
         expect_probes: &["first_repetition_grew"],
